@@ -11,7 +11,7 @@ import muxcheck
 import muxgen
 
 LEVEL = "proof"
-CONE = ["Props/C14.v", "Proofs/MuxProofs.v", "Model/Writer.v"]
+CONE = ["Props/C14.v", "Proofs/MuxTotal.v", "Model/Writer.v"]
 
 
 def config_histories(tier, rng):
